@@ -73,6 +73,11 @@ def generate(prng, tier, index):
     sc["set_order"] = prng.choice(("natural", "natural", "reversed", "shuffled"))
     if prng.random() < 0.3:
         sc["extra_attrs"] = [prng.choice(interesting.ATTR_NAMES[:12]), prng.choice(("int", "float", "str"))]
+        if prng.random() < 0.4:
+            # a stray attribute under a plain-string name that LOOKS like the real annotation (the annotations proper are keyed
+            # by Enum members): its values are the scenario's own topology names, dealt out so that they disagree with the truth
+            sc["extra_attrs"] = [prng.choice(("topology", "topology", "motif_ids", "joint_degree", "name", "type")), "names",
+                                 [t["name"] for t in topos]]
     if prng.random() < 0.3:
         # vertex INSERTION order differs from the labels (graph built from an edge list / relabelled / vertices added late)
         sc["node_order"] = [prng.choice(("reversed", "shuffled", "edges_first")), prng.randrange(2 ** 31),
